@@ -4,7 +4,7 @@
     hypothesis per body: the computed inverse of D = H^T P H is a symmetric inverse. *)
 From Coq Require Import List Reals.
 Import ListNotations.
-Require Import Num Vec Tree MB MB_Proofs Spatial Spatial_Proofs C02_Model C02_Proofs C02_Concrete C02_GJ.
+Require Import Num Vec Tree MB MB_Proofs Spatial Spatial_Proofs C02_Model C02_Proofs C02_Concrete C02_GJ C01_PD.
 Local Open Scope R_scope.
 
 Section P.
@@ -35,3 +35,29 @@ End P.
 Print Assumptions C01_mulM_mulMInv_id.
 Print Assumptions C01_mulM_mulMInv_id_any_dof.
 Print Assumptions C01_mulMInv_mulM_id_any_dof.
+
+(** POSITIVE DEFINITE (no longer partial): for every tree whose bodies have non-negative mass and positive semi-definite
+    central inertia and whose elimination pivots are non-zero, u^T M u = 0 forces u = 0 at every mobility; equivalently a
+    speed assignment that is not zero on the tree has positive kinetic energy.  (Proof in C01/C01_PD.v: every body's
+    energy term vanishes, a PSD operator annihilates vectors of zero energy, hence M u = 0, and multiplyByMInv is a left
+    inverse of multiplyByM.) *)
+Section PD.
+Context {X : Type} (nd : X -> node (SpatialVec R) (Vec3 R) (SpInertia (T:=R))).
+Theorem C01_M_positive_definite (u : X -> list R) (t : tree X) :
+  (forall x, In x (flatten t) -> (let '(m,_,_) := n_M (nd x) in 0 <= m) /\ (forall w, 0 <= centralForm (n_M (nd x)) w)) ->
+  (forall y, In y (flatten (abi_pass KR AR nd t)) -> length (u (fst y)) = length (n_H (nd (fst y))) /\ pivots_ok (a_D (snd y))) ->
+  tsum (tmap (fun xt => dotU KR (snd xt) (u (fst (fst xt)))) (mulM KR nd u t)) = 0 ->
+  forall x, In x (flatten t) -> u x = map (fun _ => 0) (n_H (nd x)).
+Proof. exact (M_positive_definite nd u t). Qed.
+Theorem C01_M_positive_definite_strict (u : X -> list R) (t : tree X) :
+  (forall x, In x (flatten t) -> (let '(m,_,_) := n_M (nd x) in 0 <= m) /\ (forall w, 0 <= centralForm (n_M (nd x)) w)) ->
+  (forall y, In y (flatten (abi_pass KR AR nd t)) -> length (u (fst y)) = length (n_H (nd (fst y))) /\ pivots_ok (a_D (snd y))) ->
+  (exists x, In x (flatten t) /\ u x <> map (fun _ => 0) (n_H (nd x))) ->
+  0 < tsum (tmap (fun xt => dotU KR (snd xt) (u (fst (fst xt)))) (mulM KR nd u t)).
+Proof. exact (M_positive_definite_strict nd u t). Qed.
+End PD.
+Theorem C01_positive_definite_example : 0 < tsum (tmap (fun xt => dotU KR (snd xt) (sl_ud (fst (fst xt)))) (mulM KR sl_nd sl_ud sl_t)).
+Proof. exact pd_example. Qed.
+Print Assumptions C01_M_positive_definite.
+Print Assumptions C01_M_positive_definite_strict.
+Print Assumptions C01_positive_definite_example.
